@@ -452,7 +452,7 @@ fn gen(rng: &mut Rng, tier: Tier) -> Vec<Case> {
                 1 => format!("N{}m", c),
                 _ => format!("Nm{}", c),
             };
-            let rounds = if tier == Tier::Thorough { KINDS.len() } else { 2 };
+            let rounds = if tier == Tier::Thorough { KINDS.len() } else { 1 };
             for r in 0..rounds {
                 let k = KINDS[(i + pos * 3 + r * 4) % KINDS.len()];
                 push(case(k, &n, None, "byte"));
@@ -467,7 +467,7 @@ fn gen(rng: &mut Rng, tier: Tier) -> Vec<Case> {
     for (a, b) in pairs {
         push(case("img2", a, Some(b), "pair"));
     }
-    let n_rand = if tier == Tier::Thorough { 6000 } else { 700 };
+    let n_rand = if tier == Tier::Thorough { 6000 } else { 400 };
     for i in 0..n_rand {
         // 4. random assembled names, all entry points
         let k = KINDS[rng.below(KINDS.len() as u64) as usize];
